@@ -3,28 +3,65 @@ import z3
 from pyvc.kinds import *
 from pyvc.dsl import FunctionSpec, Loop, forall, rng
 from specs.schema import SEG, SCORED, PWS
-from specs.common import same_list, Abs
+from specs.common import same_list, Abs, is_cls, subseq, skolem_index, SUBF, SUBG, derived
 
 F = 'src/alignment/segments.py'
 PAIRC = OBJ('_SegmentPairWithConflict')
 CHAR = OBJ('_ConflictingSegmentCharacteristics')
 
-# determinism symbols for the assumed subtraction (a pure function of immutable objects)
-SUB_SEG = z3.Function('segment_minus_segment', Ref, Ref, Ref)
-SUB_LIST = z3.Function('segment_minus_positions', Ref, z3.ArraySort(z3.IntSort(), Ref), z3.IntSort(), z3.IntSort(), Ref)
+# ------------------------------------------------------------------ AlignmentSegment.__sub__ (two argument shapes = two contract variants)
+# MINUS_P(res, seg, arr, off, n): "res keeps exactly the positions of seg that are not `in` the list arr[off:off+n]" - DEFINED by the two completeness
+# clauses that are proved when __sub__ is verified; opaque everywhere else (hide / reveal)
+MINUS_P = z3.Function('keeps_exactly_the_positions_not_in', Ref, Ref, z3.ArraySort(z3.IntSort(), Ref), z3.IntSort(), z3.IntSort(), z3.BoolSort())
+
+def _sub_ensures(which):
+    def ens(C, res):
+        e, st = C._e, C._st
+        me = C.self
+        P, R = me.positions, res.positions
+        other = C.other.positions if which == 'segment' else C.other
+        if C.proving:
+            flt = C.note('filter_log')[-1]
+            f, g = flt['idx'], flt['inv']
+            kept = C.F.positions if C.has('F') and C.F.has('positions') else R
+        else:
+            f, g = skolem_index(res.ref, me.ref), (lambda k: SUBG(res.ref, me.ref, k))
+            kept = R
+        k = z3.Int('sbk')
+        a = Abs(P)
+        T = z3.Int('sbT')
+        x = P.raw(T - P.off)
+        member = e.contains(st, other.v, x)                       # `x in other` as Python defines it: identity or the classes' __eq__
+        if not C.proving:
+            # callers see the two completeness clauses as one opaque fact (they only pass it on): MINUS_P is defined by those clauses,
+            # which are proved in full when __sub__ itself is verified
+            return [('result_is_the_segment_itself_rebuilt_from_a_subsequence', derived(e, res, me)),
+                    ('keeps_exactly_the_positions_not_in_the_subtrahend', MINUS_P(res.ref, me.ref, other.v.arrs[0], other.off, other.len))]
+        return [('nonempty_result_is_a_plain_segment_with_a_subsequence_of_the_positions', z3.Implies(R.len > 0, z3.And(
+                    is_cls(e, res, 'AlignmentSegment'), subseq(R, P, f, C.proving)))),
+                ('empty_result_is_the_empty_segment', z3.Implies(R.len == 0, z3.And(is_cls(e, res, 'EmptyAlignmentSegment'), res.segmentScore == 0))),
+                ('score_recomputed_as_the_sum_of_what_is_left', z3.Implies(R.len > 0, res.segmentScore == e.score_sum(kept.v))),
+                ('peak_kept', z3.Implies(R.len > 0, res.peak.ref == me.peak.ref)),
+                ('every_position_not_in_the_subtrahend_is_kept',
+                 z3.ForAll([T], z3.Implies(z3.And(a.inside(T), z3.Not(member)),
+                                           z3.And(0 <= g(T - P.off), g(T - P.off) < R.len, f(g(T - P.off)) == T - P.off)),
+                           patterns=[z3.Select(P.v.arrs[0], T)])),
+                ('no_kept_position_is_in_the_subtrahend',
+                 z3.ForAll([T], z3.Implies(z3.And(a.inside(T), member),
+                                           z3.Not(z3.Exists([k], z3.And(0 <= k, k < R.len, f(k) == T - P.off)))),
+                           patterns=[z3.Select(P.v.arrs[0], T)]))]
+    return ens
 
 
-def _sub_ensures(C, res):
-    o = C.other
-    if hasattr(o, 'ref'):
-        return [('deterministic', res.ref == SUB_SEG(C.self.ref, o.ref))]
-    return [('deterministic', res.ref == SUB_LIST(C.self.ref, o.v.arrs[0], o.v.off, o.v.n))]
-
-
-sub = FunctionSpec(
-    file=F, qualname='AlignmentSegment.__sub__', params=dict(self=SEG, other=ANY), returns=SEG, ensures=_sub_ensures, trusted=True, serves=('C15',),
-    note="ASSUMED here: segment minus (segment | position list) is a function of its operands (list comprehension with `not in` over __eq__ of four classes); "
-         "its statement-level effect (sub-run, recomputed score) is checked by the bounded C15 monitor")
+_sub_note = ("segment minus (segment | position list): the result's positions are a sub-sequence of the segment's positions (same objects, same order), exactly "
+             "those that are not `in` the subtrahend (identity or the classes' __eq__), rebuilt through AlignmentSegment.create (score = sum of what is left, "
+             "peak kept; the empty segment if nothing is left)")
+sub_seg = FunctionSpec(
+    file=F, qualname='AlignmentSegment.__sub__', variant='segment', params=dict(self=SEG, other=SEG), returns=SEG, ensures=_sub_ensures('segment'),
+    serves=('C15', 'C01', 'C08'), note=_sub_note)
+sub_list = FunctionSpec(
+    file=F, qualname='AlignmentSegment.__sub__', variant='positions', params=dict(self=SEG, other=LIST(SCORED)), returns=SEG, ensures=_sub_ensures('positions'),
+    serves=('C15', 'C01', 'C08'), note=_sub_note)
 
 optimalMergeIndex = FunctionSpec(
     file=F, qualname='_SegmentPairWithConflict.__getOptimalMergeIndex',
@@ -32,9 +69,6 @@ optimalMergeIndex = FunctionSpec(
     ensures=lambda C, res: [('index_in_range', z3.And(0 <= res, res <= C.leftSubsegmentCharacteristics.scores.len))],
     note="ASSUMED (numpy cumsum / add / argmax): an index between 0 and the number of labels")
 
-removeWhole = FunctionSpec(
-    file=F, qualname='_SegmentPairWithConflict.__removeWholeConflictingSubsegmentWithWorseScore', params=dict(self=PAIRC), returns=TUPLE(SEG, SEG),
-    trusted=True, serves=('C15',), note="ASSUMED here; bounded by the C15 monitor")
 
 
 def _wf_char(ch, conf):
@@ -53,14 +87,31 @@ def _trim_requires(C):
             ('right_label_table_well_formed', _wf_char(C.rightSubsegmentCharacteristics, C.self.rightConflictingSubsegment))]
 
 
+def _minus(e, st, new, seg, removed, f=None, g=None):
+    """`new` keeps exactly the positions of `seg` that are not `in` the list view `removed`: the opaque fact established by __sub__"""
+    return MINUS_P(new.ref, seg.ref, removed.v.arrs[0], removed.off, removed.len)
+
+
+def _pair_results(C, res):
+    """what every resolution of a pair guarantees (all branches; also what callers may assume)"""
+    e = C._e
+    me = C.self
+    newL, newR = res
+    return [('left_result_never_adds_moves_or_rescores_positions_of_the_left_segment', derived(e, newL, me.leftSegment, proving=C.proving)),
+            ('right_result_never_adds_moves_or_rescores_positions_of_the_right_segment', derived(e, newR, me.rightSegment, proving=C.proving))]
+
+
 def _trim_ensures(C, res):
     me = C.self
+    e, st = C._e, C._st
     L, R = C.leftSubsegmentCharacteristics, C.rightSubsegmentCharacteristics
     newL, newR = res
-    cl = []
+    cl = _pair_results(C, res)
     Fv = C.F if C.has('F') else None
     if Fv is None:
         return cl
+    fL, gL = skolem_index(newL.ref, me.leftSegment.ref), (lambda k: SUBG(newL.ref, me.leftSegment.ref, k))
+    fR, gR = skolem_index(newR.ref, me.rightSegment.ref), (lambda k: SUBG(newR.ref, me.rightSegment.ref, k))
     if Fv.has('rightTrimIndex'):
         m = Fv.optimalMergeIndex
         lt, rt = Fv.leftTrimIndex, Fv.rightTrimIndex
@@ -70,17 +121,39 @@ def _trim_ensures(C, res):
                ('left_cut_lies_directly_before_its_own_mth_label', z3.And(L.indexes[m - 1] < lt, lt <= L.indexes[m])),
                ('right_cut_lies_directly_before_its_own_mth_label', z3.And(R.indexes[m - 1] < rt, rt <= R.indexes[m])),
                ('left_loses_exactly_its_conflicting_positions_from_the_cut_on',
-                z3.And(lrem.v.arrs[0] == lc.v.arrs[0], lrem.off == lc.off + lt, lrem.len == lc.len - lt, newL.ref == SUB_LIST(me.leftSegment.ref, lrem.v.arrs[0], lrem.off, lrem.len))),
+                z3.And(lrem.v.arrs[0] == lc.v.arrs[0], lrem.off == lc.off + lt, lrem.len == lc.len - lt, _minus(e, st, newL, me.leftSegment, lrem, fL, gL))),
                ('right_loses_exactly_its_conflicting_positions_before_the_cut',
-                z3.And(rrem.v.arrs[0] == rc.v.arrs[0], rrem.off == rc.off, rrem.len == rt, newR.ref == SUB_LIST(me.rightSegment.ref, rrem.v.arrs[0], rrem.off, rrem.len)))]
+                z3.And(rrem.v.arrs[0] == rc.v.arrs[0], rrem.off == rc.off, rrem.len == rt, _minus(e, st, newR, me.rightSegment, rrem, fR, gR)))]
     elif Fv.has('optimalMergeIndex'):
         m = Fv.optimalMergeIndex
         cl += [('cut_at_the_left_edge_removes_the_whole_left_conflict_zone_and_keeps_the_right_segment',
-                z3.Implies(m == 0, z3.And(newL.ref == SUB_SEG(me.leftSegment.ref, me.leftConflictingSubsegment.ref), newR.ref == me.rightSegment.ref))),
+                z3.Implies(m == 0, z3.And(_minus(e, st, newL, me.leftSegment, me.leftConflictingSubsegment.positions, fL, gL), newR.ref == me.rightSegment.ref))),
                ('cut_at_the_right_edge_keeps_the_left_segment_and_removes_the_whole_right_conflict_zone',
-                z3.Implies(m != 0, z3.And(newL.ref == me.leftSegment.ref, newR.ref == SUB_SEG(me.rightSegment.ref, me.rightConflictingSubsegment.ref))))]
+                z3.Implies(m != 0, z3.And(newL.ref == me.leftSegment.ref,
+                                          _minus(e, st, newR, me.rightSegment, me.rightConflictingSubsegment.positions, fR, gR))))]
     return cl
 
+
+def _removeWhole_ensures(C, res):
+    e, st = C._e, C._st
+    me = C.self
+    newL, newR = res
+    fL, gL = skolem_index(newL.ref, me.leftSegment.ref), (lambda k: SUBG(newL.ref, me.leftSegment.ref, k))
+    fR, gR = skolem_index(newR.ref, me.rightSegment.ref), (lambda k: SUBG(newR.ref, me.rightSegment.ref, k))
+    lbetter = me.leftConflictingSubsegment.segmentScore > me.rightConflictingSubsegment.segmentScore
+    return _pair_results(C, res) + [
+        ('the_conflict_zone_with_the_strictly_better_score_is_kept_whole_and_the_other_removed_whole',
+         z3.And(z3.Implies(lbetter, z3.And(newL.ref == me.leftSegment.ref,
+                                           _minus(e, st, newR, me.rightSegment, me.rightConflictingSubsegment.positions, fR, gR))),
+                z3.Implies(z3.Not(lbetter), z3.And(newR.ref == me.rightSegment.ref,
+                                                   _minus(e, st, newL, me.leftSegment, me.leftConflictingSubsegment.positions, fL, gL)))))]
+
+
+removeWhole = FunctionSpec(
+    file=F, qualname='_SegmentPairWithConflict.__removeWholeConflictingSubsegmentWithWorseScore', params=dict(self=PAIRC), returns=TUPLE(SEG, SEG),
+    ensures=_removeWhole_ensures, serves=('C15', 'C01'),
+    note="label tables of different length: the whole conflict zone of the side with the worse (or equal: the left) zone score is removed, the other segment "
+         "is returned unchanged")
 
 trim = FunctionSpec(
     file=F, qualname='_SegmentPairWithConflict.__trimSegmentsAtOptimalPosition',
@@ -123,7 +196,8 @@ getQueryLabels = FunctionSpec(
 # ------------------------------------------------------------------ resolveConflict (glue: establishes the precondition of the cut)
 resolveConflict = FunctionSpec(
     file=F, qualname='_SegmentPairWithConflict.resolveConflict', params=dict(self=PAIRC), returns=TUPLE(SEG, SEG),
-    serves=('C15',),
+    ensures=lambda C, res: _pair_results(C, res),
+    serves=('C15', 'C01'),
     note="calls the equal-index cut with the label tables of the two conflicting sub-segments on the same sequence (reference if the left peak lies to the "
          "right of the right peak, query otherwise): the tables' well-formedness (precondition of the cut) is discharged from the contracts of get*Labels")
 
@@ -204,4 +278,196 @@ slice_ = FunctionSpec(
     note="the conflicting sub-segment is a contiguous run of the segment's positions (identity), rebuilt through AlignmentSegment.create (score = sum of what "
          "is left); the trailing-unpaired trimming never empties the list (no IndexError) for the two operand shapes conflict resolution uses")
 
-SPECS = [sub, optimalMergeIndex, removeWhole, trim, getReferenceLabels, getQueryLabels, resolveConflict, slice_]
+
+# ------------------------------------------------------------------ partial-correctness reading of slice (no operand-shape precondition)
+ANYPAIR = OBJ('AlignedPair', 'ScoredAlignedPair', '_NullAlignedPair')
+_CMP_INLINE = {'AlignedPair.lessOnBothSequences', 'AlignedPair.lessOrEqualOnAnySequence',
+               '_NullAlignedPair.lessOnBothSequences', '_NullAlignedPair.lessOrEqualOnAnySequence',
+               'ScoredNotAlignedPosition.lessOnBothSequences', 'ScoredNotAlignedPosition.lessOrEqualOnAnySequence',
+               'NotAlignedQueryPosition.lessOnBothSequences', 'NotAlignedQueryPosition.lessOrEqualOnAnySequence',
+               'NotAlignedReferencePosition.lessOnBothSequences', 'NotAlignedReferencePosition.lessOrEqualOnAnySequence'}
+
+
+def _slice_partial_ensures(C, res):
+    P, R = C.self.positions, res.positions
+    kept = C.F.positions if (C.has('F') and C.F.has('positions')) else R
+    return [('result_is_a_contiguous_run_of_the_segment_or_empty', z3.And(
+                z3.Implies(R.len > 0, z3.And(is_cls(C._e, res, 'AlignmentSegment'), *[x == y for x, y in zip(R.v.arrs, P.v.arrs)], P.off <= R.off,
+                                             R.off + R.len <= P.off + P.len)),
+                z3.Implies(R.len == 0, z3.And(is_cls(C._e, res, 'EmptyAlignmentSegment'), res.segmentScore == 0)))),
+            ('score_recomputed', z3.Implies(R.len > 0, res.segmentScore == C._e.score_sum(kept.v))),
+            ('peak_kept', z3.Implies(R.len > 0, res.peak.ref == C.self.peak.ref))]
+
+
+def _trimend_partial_inv(L):
+    p, p0 = L.positions, L.p0
+    return [('still_a_prefix_of_the_taken_run', z3.And(*[x == y for x, y in zip(p.v.arrs, p0.v.arrs)], p.off == p0.off, p.len <= p0.len))]
+
+
+def _slice_partial_after_take(L):
+    L.set('p0', L._st.lst(L._names['positions']))
+
+
+slice_partial = FunctionSpec(
+    file=F, qualname='AlignmentSegment.slice', variant='partial', params=dict(self=SEG, start=ANYPAIR, end=ANYPAIR), returns=SEG,
+    ensures=_slice_partial_ensures, may_raise={'IndexError'},
+    loops={'AlignmentSegment.__trimNotAlignedPositionsFromEnd:while#0': Loop(inv=_trimend_partial_inv)},
+    ghost={'p0': lambda C: C._e.fresh_list(SCORED, 'p0', n=z3.IntVal(0))},
+    ghost_at={'assign#1': _slice_partial_after_take}, ghost_frozen={'p0'},
+    inline={'AlignmentSegment.__trimNotAlignedPositionsFromEnd'} | _CMP_INLINE,
+    serves=('C15', 'C01', 'C08'),
+    note="PARTIAL-CORRECTNESS variant (any segment, any zone; IndexError permitted - exception freedom is the default contract's): whenever slice returns, the "
+         "result is a contiguous run of the segment's positions rebuilt through create (score = sum of what is left, same peak) or the empty segment")
+
+
+# ------------------------------------------------------------------ pairs: create / checkForConflicts / resolveConflict of both pair classes
+PAIRN = OBJ('_SegmentPairWithNoConflict')
+PAIRANY = OBJ('_SegmentPairWithConflict', '_SegmentPairWithNoConflict')
+
+
+def _run_of(e, sub, seg):
+    """segment view `sub` is `seg`'s conflict zone: a contiguous run of seg's positions, or the empty segment"""
+    R, P = sub.positions, seg.positions
+    return z3.And(z3.Implies(R.len > 0, z3.And(*[x == y for x, y in zip(R.v.arrs, P.v.arrs)], P.off <= R.off, R.off + R.len <= P.off + P.len)),
+                  z3.Implies(R.len == 0, is_cls(e, sub, 'EmptyAlignmentSegment')))
+
+
+def _paircreate_ensures(C, res):
+    e = C._e
+    return [('pair_holds_the_two_segments_in_order', z3.And(res.leftSegment.ref == C.segment1.ref, res.rightSegment.ref == C.segment2.ref)),
+            ('left_conflict_zone_is_a_contiguous_run_of_the_left_segment', _run_of(e, res.leftConflictingSubsegment, C.segment1)),
+            ('right_conflict_zone_is_a_contiguous_run_of_the_right_segment', _run_of(e, res.rightConflictingSubsegment, C.segment2))]
+
+
+pair_create = FunctionSpec(
+    file=F, qualname='_SegmentPairWithConflict.create', params=dict(segment1=SEG, segment2=SEG), returns=PAIRC, ensures=_paircreate_ensures,
+    may_raise={'IndexError'}, use_variant={'AlignmentSegment.slice': 'partial'}, serves=('C15', 'C01', 'C08'),
+    note="(partial correctness) the pair keeps the two segments in the order given; both conflict zones are contiguous runs of their own segment, cut "
+         "between the right segment's first pair and the left segment's last pair")
+
+
+def _check_ensures(C, res):
+    return [('pair_holds_this_segment_and_the_other_in_order', z3.And(res.leftSegment.ref == C.self.ref, res.rightSegment.ref == C.other.ref))]
+
+
+checkForConflicts = FunctionSpec(
+    file=F, qualname='AlignmentSegment.checkForConflicts', params=dict(self=OBJ('AlignmentSegment'), other=SEG), returns=PAIRANY, ensures=_check_ensures,
+    may_raise={'IndexError'}, inline={'AlignmentSegment.endOverlapsWithStartOf'} | _CMP_INLINE, serves=('C15', 'C01', 'C08'),
+    note="(partial correctness) returns a pair object over (this segment, the other segment), whichever way the overlap test goes")
+checkForConflicts_empty = FunctionSpec(
+    file=F, qualname='EmptyAlignmentSegment.checkForConflicts', params=dict(self=OBJ('EmptyAlignmentSegment'), other=SEG), returns=PAIRN,
+    ensures=_check_ensures, serves=('C15', 'C01', 'C08'), note="an empty segment never conflicts: pair over (this, other)")
+
+resolveNoConflict = FunctionSpec(
+    file=F, qualname='_SegmentPairWithNoConflict.resolveConflict', params=dict(self=PAIRN), returns=TUPLE(SEG, SEG),
+    ensures=lambda C, res: _pair_results(C, res) + [('both_segments_returned_unchanged', z3.And(res[0].ref == C.self.leftSegment.ref,
+                                                                                              res[1].ref == C.self.rightSegment.ref))],
+    serves=('C15', 'C01'), note="no conflict: both segments are returned as they are")
+
+SPECS = [sub_seg, sub_list, optimalMergeIndex, removeWhole, trim, getReferenceLabels, getQueryLabels, resolveConflict, slice_, slice_partial,
+         pair_create, checkForConflicts, checkForConflicts_empty, resolveNoConflict]
+
+
+# ------------------------------------------------------------------ the resolver (src/alignment/segment_with_resolved_conflicts.py)
+FR = 'src/alignment/segment_with_resolved_conflicts.py'
+RESOLVER = OBJ('AlignmentSegmentConflictResolver')
+ORIGIN = z3.Function('origin_index', z3.ArraySort(z3.IntSort(), Ref), z3.ArraySort(z3.IntSort(), Ref), z3.IntSort(), z3.IntSort(), z3.IntSort())
+
+
+def _compose(n, c, o):
+    """index function of n's positions inside o's, given n derived from c and c derived from o (either step may be the identity)"""
+    return lambda j: z3.If(n == c, SUBF(c, o, j), z3.If(c == o, SUBF(n, c, j), SUBF(c, o, SUBF(n, c, j))))
+
+
+def _resolver_requires(C):
+    from specs.chainer import _ch_requires
+    return _ch_requires(C)
+
+
+def _loop_inv(L):
+    e = L._e
+    cur, orig, prev = L.chainedSegments, L.orig, L.prev
+    i = z3.Int('rli')
+    if L.proving:
+        f = lambda i: _compose(cur.raw(i).t, prev.raw(i).t, orig.raw(i).t)
+    else:
+        f = lambda i: skolem_index(cur.raw(i).t, orig.raw(i).t)
+    return [('same_number_of_segments', z3.And(cur.len == orig.len, prev.len == orig.len)),
+            ('every_segment_is_the_chained_segment_at_its_place_or_rebuilt_from_a_subsequence_of_it',
+             z3.ForAll([i], z3.Implies(z3.And(0 <= i, i < cur.len), derived(e, cur[i], orig[i], f(i), L.proving)),
+                       **({} if L.proving else dict(patterns=[cur.raw(i).t]))))]
+
+
+def _snap(names):
+    def h(L):
+        v = L._st.lst(L._names['chainedSegments'])
+        for n in names:
+            L.set(n, v)
+    return h
+
+
+def members_derived(e, R, S, w, f, proving):
+    """every segment of list view R is a segment of list view S (at index w(T)) or was rebuilt from a sub-sequence of its positions.
+    Quantified over the ABSOLUTE index T of R's base array (R may be an object field with a symbolic offset)."""
+    T = z3.Int('mdT')
+    a = Abs(R)
+    body = z3.Implies(a.inside(T), z3.And(0 <= w(T), w(T) < S.len, derived(e, a[T], S[w(T)], f(T), proving)))
+    return z3.ForAll([T], body) if proving else z3.ForAll([T], body, patterns=[z3.Select(R.v.arrs[0], T)])
+
+
+def _origin(R, S):
+    return lambda T: ORIGIN(R.v.arrs[0], S.v.arrs[0], S.off, T)
+
+
+def _pairs_ensures(C, res):
+    e = C._e
+    S = C.segments
+    if C.proving:
+        orig = C.F.orig
+        w = lambda T: CHSRC(orig.v.arrs[0], S.v.arrs[0], S.off, T - res.off)
+        f = lambda T: skolem_index(Abs(res).raw(T).t, orig.raw(T - res.off).t)
+    else:
+        w = _origin(res, S)
+        f = lambda T: skolem_index(Abs(res).raw(T).t, S.raw(w(T)).t)
+    return [('same_or_fewer_segments', res.len <= S.len),
+            ('every_resulting_segment_is_an_input_segment_or_rebuilt_from_a_subsequence_of_one', members_derived(e, res, S, w, f, C.proving))]
+
+
+def _resolve_ensures(C, res):
+    e = C._e
+    S, R = C.segments, res.segments
+    if C.proving and C.has('F') and C.F.has('resolvedSegments'):
+        mid = C.F.resolvedSegments                      # the callee's result: its Skolem functions are the witnesses
+        w = lambda T: ORIGIN(mid.v.arrs[0], S.v.arrs[0], S.off, mid.off + (T - R.off))
+        f = lambda T: skolem_index(Abs(R).raw(T).t, S.raw(w(T)).t)
+    elif C.proving:
+        w = lambda T: T - R.off                         # fewer than two segments: returned as they are
+        f = lambda T: skolem_index(Abs(R).raw(T).t, S.raw(w(T)).t)
+    else:
+        w = _origin(R, S)
+        f = lambda T: skolem_index(Abs(R).raw(T).t, S.raw(w(T)).t)
+    return [('same_or_fewer_segments', R.len <= S.len),
+            ('every_resulting_segment_is_an_input_segment_or_rebuilt_from_a_subsequence_of_one', members_derived(e, R, S, w, f, C.proving))]
+
+
+from specs.chainer import CHSRC
+pairAndResolve = FunctionSpec(
+    file=FR, qualname='AlignmentSegmentConflictResolver.__pairAndResolveConflicts', params=dict(self=RESOLVER, segments=LIST(SEG)), returns=LIST(SEG),
+    requires=_resolver_requires, ensures=_pairs_ensures, may_raise={'IndexError'},
+    loops={'for#0': Loop(inv=_loop_inv)},
+    ghost={'orig': lambda C: C._e.fresh_list(SEG, 'orig', n=z3.IntVal(0)), 'prev': lambda C: C._e.fresh_list(SEG, 'prev', n=z3.IntVal(0))},
+    ghost_at={'assign#0': _snap(('orig', 'prev')), 'assign#1': _snap(('prev',))}, ghost_frozen={'orig'},
+    inline={'AlignmentSegmentConflictResolver.__pairIndexes'},
+    serves=('C15', 'C01'),
+    note="(partial correctness) the loop over consecutive chain members: every resulting segment is the chained segment at its place or was rebuilt from a "
+         "sub-sequence of its positions (never adds, moves or re-scores positions; score = sum of what is left); the chained segments are input segments")
+
+resolveConflicts = FunctionSpec(
+    file=FR, qualname='AlignmentSegmentConflictResolver.resolveConflicts', params=dict(self=RESOLVER, segments=LIST(SEG)),
+    returns=OBJ('AlignmentSegmentsWithResolvedConflicts'), requires=_resolver_requires, ensures=_resolve_ensures, may_raise={'IndexError'},
+    serves=('C15', 'C01'),
+    note="(partial correctness) C15, first sentence, for all inputs: resolving conflicts never adds, moves or re-scores positions - every resulting segment is "
+         "one of the input segments or was rebuilt (AlignmentSegment.create: score = sum of what is left, same peak) from a sub-sequence of one input "
+         "segment's positions, in the same order; contiguity of what is left and disjointness of the results are bounded (C15 monitor; K1, K2)")
+
+SPECS += [pairAndResolve, resolveConflicts]
